@@ -15,7 +15,9 @@
      vrp-pragmatic/src/format/problem/fleet_reader.rs :: read_fleet (parse_time unwraps, capacity.first().unwrap(), MultiDimLoad::new)
      vrp-pragmatic/src/format/problem/job_reader.rs   :: read_required_jobs (MultiDimLoad::new, parse_times/parse_time_window),
                                                  read_optional_breaks (arity panics, parse_time_window), read_reloads
-     vrp-pragmatic/src/format/problem/problem_reader.rs :: map_to_problem (validate first), read_reserved_times_index (parse_time)
+     vrp-pragmatic/src/format/problem/problem_reader.rs :: map_to_problem_with_approx (approximated matrices first), map_to_problem
+                                                 (validate before mapping), read_reserved_times_index (parse_time)
+     vrp-core/src/models/problem/fleet.rs     :: Fleet::new (assert!(!vehicles.is_empty()))
 
    The document type is the reduction of format/problem/model.rs to the fields these functions look at; documents of this type
    have no relations, no objectives, no clustering, no recharges and only coordinate locations (every place its own coordinate),
@@ -113,11 +115,12 @@ Definition has_dup (l : list string) : bool := has_dup_from [] l.
 
 (* ---------- MultiDimLoad (length of the list = `size`, missing entries are 0) ---------- *)
 Fixpoint vzip (f : Z -> Z -> Z) (a b : list Z) : list Z :=
-  match a, b with
-  | [], [] => []
-  | x :: a', [] => f x 0 :: vzip f a' []
-  | [], y :: b' => f 0 y :: vzip f [] b'
-  | x :: a', y :: b' => f x y :: vzip f a' b'
+  match a with
+  | [] => map (f 0) b
+  | x :: a' => match b with
+               | [] => f x 0 :: vzip f a' []
+               | y :: b' => f x y :: vzip f a' b'
+               end
   end.
 Definition vadd := vzip Z.add.
 Definition vsub := vzip Z.sub.
@@ -126,8 +129,8 @@ Definition demand_vec (t : task) : list Z := match tk_demand t with Some v => v 
 Definition get_demand (o : option (list task)) : list Z :=
   fold_left (fun acc t => vadd (demand_vec t) acc) (olist o) [].
 (* `x != MultiDimLoad::default()` : partial_cmp over max(size) dims; size 0 gives None, i.e. "not equal" *)
-Definition load_ne_default (v : list Z) : bool := (length v =? 0)%nat || existsb (fun x => negb (x =? 0)) v.
-Definition over8 (v : list Z) : bool := (8 <? length v)%nat.
+Definition load_ne_default (v : list Z) : bool := (List.length v =? 0)%nat || existsb (fun x => negb (x =? 0)) v.
+Definition over8 (v : list Z) : bool := (8 <? List.length v)%nat.
 Definition task_over8 (t : task) : bool := match tk_demand t with Some v => over8 v | None => false end.
 
 (* ---------- jobs.rs ---------- *)
@@ -329,8 +332,8 @@ Definition times_panic (o : option (list twraw)) : bool := existsb tw_panics (ol
 Definition all_tasks_iter (j : job) : list task :=
   olist (j_pickups j) ++ olist (j_deliveries j) ++ olist (j_services j) ++ olist (j_replacements j).
 Definition has_multi_dimen_capacity (d : doc) : bool :=
-  existsb (fun v => (1 <? length (v_capacity v))%nat) (d_vehicles d)
-  || existsb (fun j => existsb (fun t => match tk_demand t with Some v => (1 <? length v)%nat | None => false end)
+  existsb (fun v => (1 <? List.length (v_capacity v))%nat) (d_vehicles d)
+  || existsb (fun j => existsb (fun t => match tk_demand t with Some v => (1 <? List.length v)%nat | None => false end)
                                (all_tasks_iter j)) (d_jobs d).
 
 Definition fleet_panics (d : doc) : bool :=
@@ -342,7 +345,9 @@ Definition fleet_panics (d : doc) : bool :=
       || match sh_end s with Some e => tm_bad e | None => false end
       || (match v_ids v with [] => false | _ => true end
           && (if multi then over8 (v_capacity v) else match v_capacity v with [] => true | _ => false end)))
-    (v_shifts v)) (d_vehicles d).
+    (v_shifts v)) (d_vehicles d)
+  (* CoreFleet::new: assert!(!vehicles.is_empty()) — one core vehicle per (shift, vehicle id) *)
+  || forallb (fun v => match v_shifts v, v_ids v with _ :: _, _ :: _ => false | _, _ => true end) (d_vehicles d).
 
 Definition reserved_times_panic (d : doc) : bool :=
   existsb (fun v => existsb (fun s => existsb (fun b => match b with
@@ -359,7 +364,7 @@ Definition conditional_panic (d : doc) : bool :=
                     | _ => existsb (fun s =>
                              existsb (fun b => match b with
                                                | BOptTW w => tw_panics w
-                                               | BOptOff o => negb (length o =? 2)%nat
+                                               | BOptOff o => negb (List.length o =? 2)%nat
                                                | _ => false end) (olist (sh_breaks s))
                              || existsb (fun r => times_panic (rl_times r)) (olist (sh_reloads s))) (v_shifts v)
                     end) (d_vehicles d).
@@ -367,9 +372,14 @@ Definition conditional_panic (d : doc) : bool :=
 Definition reader_panics (d : doc) : bool :=
   fleet_panics d || reserved_times_panic d || jobs_panic d || conditional_panic d.
 
+(* map_to_problem_with_approx: create_approx_matrices runs BEFORE validation; get_approx_transportation asserts
+   !speeds.is_empty(), i.e. at least one profile *)
+Definition approx_panics (d : doc) : bool := match d_profiles d with [] => true | _ => false end.
+Definition validate_approx (d : doc) : vres := if approx_panics d then VPanic else validate d.
+
 Inductive rres := ROk | RErr (cs : list Z) | RPanic.
 Definition read (d : doc) : rres :=
-  match validate d with
+  match validate_approx d with
   | VPanic => RPanic
   | VErr cs => RErr cs
   | VOk => if reader_panics d then RPanic else ROk
@@ -378,6 +388,6 @@ Definition read (d : doc) : rres :=
 (* ---------- entry points for the correspondence (results as plain data) ---------- *)
 (* (kind, codes): kind 0 = Ok, 1 = Err codes, 2 = Panic *)
 Definition run_validate (d : doc) : Z * list Z :=
-  match validate d with VOk => (0, []) | VErr cs => (1, cs) | VPanic => (2, []) end.
+  match validate_approx d with VOk => (0, []) | VErr cs => (1, cs) | VPanic => (2, []) end.
 Definition run_read (d : doc) : Z * list Z :=
   match read d with ROk => (0, []) | RErr cs => (1, cs) | RPanic => (2, []) end.
